@@ -184,6 +184,7 @@ def cfg_consts(base):
     g = lambda k: re.search(r"(?m)^  %s = (.*)$" % k, txt).group(1).strip()
     return {"size": int(g("Size")), "minb": int(g("MinBlock")), "nr": len(g("Readers").strip("{}").split(",")), "mod": int(g("RoundMod"))}
 
+ACTIONS = ("DoGet", "DoSet", "DoSet2", "DoInit", "DoAvail", "DoDataGet", "DoInc")
 def model_check(rig, base, workers=4, timeout=1500):
     ctx = rig.ctx
     k = cfg_consts(base)
@@ -213,6 +214,15 @@ def model_check(rig, base, workers=4, timeout=1500):
             raise common.Infra("counterexample class %s not reproduced by the trace model: %s" % (new, res["classes"]))
     raise common.Infra("more than 12 distinct violation classes")
 
+def action_coverage(rig):
+    """vacuity: per-action counts of a small exploration with TLC's -coverage (slow, so on a reduced bound)"""
+    cfg = write_cfg("_c19_cov.cfg", "MC_RingBuf.cfg", {"MaxWritten": 3, "Fix": tla_set(rig.fix), "Allow": tla_set(KEYS.keys())})
+    r = common.tlc("MC_RingBuf", cfg=cfg, workers=2, coverage=True, timeout=900)
+    cov = {m.group(1): int(m.group(2)) for m in re.finditer(r"(?m)^<(Do\w+) line [^>]*>: (\d+):\d+", r.out)}
+    rig.ctx.cov["distinct_states_found_per_action(MaxWritten=3)"] = cov
+    idle = [a for a in ACTIONS if cov.get(a, 0) == 0]
+    if idle: raise common.Infra("vacuous exploration: actions never taken: %s" % idle)
+
 # ---------------------------------------------------------------- stage 2: behaviours out of TLC replayed on the real ring
 def rp_model(p): return [p["idx"], p["off"], p["rnd"]]
 def rp_real(x, r0, mod): return x if x[0] == -1 and x[1] == -1 else [x[0], x[1], (r0 + x[2]) % mod]
@@ -229,7 +239,7 @@ def compare_step(exp, act, r0, mod, nreaders):
     elif op == "set2": chk("rc", e["rc"], act["rc"]); chk("buf", e["p"], act["p"])
     elif op == "init": chk("rc", 0, act["rc"])
     elif op == "avail":
-        for f in ("ret", "drop", "full", "cf"): chk(f, e[f], act[f])
+        for f in ("ret", "drop", "full", "cf"): chk({"cf": "check_fast", "full": "full-read"}.get(f, f), e[f], act[f])
     elif op == "dget":
         chk("iovecs", [[x["b"], x["l"]] for x in e["regs"]], act["regs"])
         chk("drop", e["drop"], act["drop"]); chk("data_size_ret", e["dsr"], act["dsr"])
@@ -276,6 +286,8 @@ def replay_behaviours(rig, base, nbeh, depth, label):
         lines.append(cmd_of_ev(s["ev"])); meta.append((b, s, r0))
     res = common.batch_run(rig.exe, lines, timeout=600, env=rig.env)
     dead = -1; nsteps = 0; nbad = 0; classes = {}
+    feat = {"deliveries": 0, "deliveries_to_previous_round_reader": 0, "deliveries_in_two_regions": 0, "loss_reports(drop>0)": 0,
+            "calls_after_real_round_num_wrapped": 0, "refused_commits(EINVAL)": 0}
     for i, (ln, (bid, s, r0), a) in enumerate(zip(lines, meta, res)):
         if bid == dead: continue
         start = max(j for j in range(i + 1) if meta[j][1] is None)
@@ -288,6 +300,14 @@ def replay_behaviours(rig, base, nbeh, depth, label):
         diff = compare_step(s, act, r0, k["mod"], k["nr"])
         nsteps += 1
         for c in s["viol"]: classes[c] = classes.get(c, 0) + 1
+        e = s["ev"]
+        if e["op"] == "dget" and e["regs"]:
+            feat["deliveries"] += 1
+            if e["rp"]["rnd"] != s["st"]["rnd"]: feat["deliveries_to_previous_round_reader"] += 1
+            if len(e["regs"]) > 1: feat["deliveries_in_two_regions"] += 1
+        if e["op"] in ("dget", "avail") and e["drop"] > 0: feat["loss_reports(drop>0)"] += 1
+        if e["op"] in ("set", "set2") and e["rc"] != 0: feat["refused_commits(EINVAL)"] += 1
+        if r0 + act["st"]["rnd"] >= k["mod"]: feat["calls_after_real_round_num_wrapped"] += 1
         if diff:
             dead = bid; nbad += 1
             if nbad <= 5:
@@ -297,6 +317,11 @@ def replay_behaviours(rig, base, nbeh, depth, label):
                              % (label, sorted(rig.fix), f, ln, json.dumps(s)[:1500], a[:1500]), {"commands": lines[start:i + 1]})
     ctx.add(evaluations=nsteps, traces_validated_against_impl=b + 1, spec_behaviours_replayed=b + 1, spec_steps_replayed=nsteps)
     ctx.cov.setdefault("classes_met_in_replayed_behaviours", {}).update(classes)
+    ctx.cov.setdefault("replayed_behaviour_features", {})[label] = feat
+    ops = {}
+    for s_ in states: ops[s_["ev"]["op"]] = ops.get(s_["ev"]["op"], 0) + 1
+    ctx.cov.setdefault("replayed_calls_per_function", {})[label] = ops
+    if not all(feat.values()) or len(ops) < 7: raise common.Infra("vacuous replay corpus: %s %s" % (feat, ops))
     ctx.log("%s: %d behaviours / %d calls replayed on the real ring, %d diverging behaviours" % (label, b + 1, nsteps, nbad))
     if states: ctx.add(samples=[{"call": cmd_of_ev(states[-1]["ev"]), "expected": states[-1]["ev"]}])
 
@@ -387,6 +412,7 @@ def run(ctx):
     ok = model_check(rig, "MC_RingBuf.cfg")
     ctx.log("exhaustive exploration done")
     if not ctx.quick and ok:
+        action_coverage(rig)
         for base in ("MC_RingBuf_tA.cfg", "MC_RingBuf_tB.cfg"):
             ok = model_check(rig, base, timeout=3000) and ok
     if ctx.quick:
@@ -394,8 +420,8 @@ def run(ctx):
         random_histories(rig, [(6, 1, 2, 4000, 3, 60), (8, 2, 2, 3500, 4, 80), (12, 2, 3, 2500, 5, 45)])
     else:
         replay_edges(rig, "MC_RingBuf_edges.cfg", "every edge (ring 6, <= 5 bytes written, round counter from RoundMod-2)")
-        replay_behaviours(rig, "MC_RingBuf_sim.cfg", 6000, 80, "simulated behaviours")
-        replay_behaviours(rig, "MC_RingBuf_sim8.cfg", 3000, 80, "simulated behaviours (ring 8 / min block 2)")
+        replay_behaviours(rig, "MC_RingBuf_sim.cfg", 4000, 80, "simulated behaviours")
+        replay_behaviours(rig, "MC_RingBuf_sim8.cfg", 2000, 80, "simulated behaviours (ring 8 / min block 2)")
         plan = []
         for i, (size, minb) in enumerate([(6, 1), (8, 2), (8, 1), (6, 2), (7, 3), (12, 2), (5, 1), (9, 4), (16, 2), (32, 4)]):
             plan.append((size, minb, 1 + i % 3, 10000, max(minb, min(size, minb + 1 + i % 4)), [30, 50, 70, 85, 92][i % 5]))
